@@ -147,4 +147,62 @@ PROPS = {
              'structure, agreed on a run of length >= 2; distinct = distinct case text',
         explanation='C04_resolution_stays_sound; cyclic grammars make lalry panic (known finding D13).',
     ),
+    'C15': dict(
+        level='proof',
+        level_text='Rocq: a verified regex development (Brzozowski derivatives, deriv_spec) and a PROVED bisimulation check between a regex and a '
+                   'sliding-window specification automaton whose language is proved to be exactly "start delimiter, then up to the FIRST '
+                   'occurrence of the end delimiter" / "to the end of the line including the line break" for every delimiter pair '
+                   '(C15_block_spec_correct, C15_block_check_sound, C15_line_check_sound). For each delimiter pair the check decides the '
+                   'property for ALL input strings at once. Tie to the code: the regex STRINGS the real generate_build_information emits are '
+                   'parsed with regex-syntax (as scnr2 does) and fed to the extracted check.',
+        level_note='Trusted: Coq kernel, extraction, OCaml driver, regex-syntax as the reader of the pattern text (same parser scnr2 uses), the '
+                   'Rust translation HIR -> Gallina regex. That scnr2 implements the regex semantics is not shown here (see C13). Strings '
+                   'range over Unicode scalar values.',
+        technique='Rocq proof: regex-vs-specification-automaton bisimulation (sound for all strings) evaluated on the real generated regexes via extraction',
+        streams=[dict(cmd='c15', quick=600, thorough=20000)],
+        rule='delimiter pairs: a corpus of common ones, every end delimiter of length 1-3 over {a,b,c} (all equality patterns) with 3 start '
+             'delimiters, and random pairs (start 1-3, end 1-3 characters over 17 punctuation/letters); non-trivial = the check decided '
+             'exactness for the pair; distinct = distinct case text',
+        explanation='Each OK case is a proof (by the sound check) that the generated regex is exact for that delimiter pair on all inputs; each '
+                    'FAIL carries a shortest distinguishing text. Known findings D6a, D6b, D7.',
+    ),
+    'C10': dict(
+        level='proof',
+        level_text='Rocq theorems about a faithful model of left_factor (find_prefix probing, factor_out_rule, mod_factor, outer loop) with the '
+                   'HashMap iteration orders as oracle parameters and generate_name as a name supply of which only freshness is assumed: for '
+                   'EVERY oracle the transformation terminates (explicit fuel bound), preserves the language of every old non-terminal, '
+                   'leaves no two non-empty alternatives with the same first symbol, and introduces only fresh names (C10_*). Tie to the '
+                   'code: the proved post-condition checker lf_check and a bounded language comparison with the verified recogniser are '
+                   'applied to the output of the real left_factor.',
+        level_note='Trusted: Coq kernel, extraction, OCaml driver, Rust harness. The real function is compared through post-conditions (any '
+                   'tie-break passes), not through exact equality with the model; language equality on the real output is checked for all '
+                   'strings up to length 3-5 only.',
+        technique='Rocq proof (measure-based termination, step-wise language preservation for every oracle) + proved post-condition checker on the real output',
+        streams=[dict(cmd='c10', quick=2500, thorough=60000)],
+        rule='tiny grammars (every 61st / every 3rd of 53,592), prefix-rich random grammars (stems shared by 1-3 alternatives, 1-3 non-terminals) '
+             'and random BNF grammars, plus the tie witness and a name-collision grammar; non-trivial = the input has two non-empty '
+             'alternatives of one non-terminal with the same first symbol; distinct = distinct case text',
+        explanation='C10_check_spec: lf_check = start unchanged, prefix-free, new left-hand sides fresh. Language equality: member on all short strings.',
+    ),
+    'C32': dict(
+        level='proof',
+        level_text='Rocq theorems over a bit-level model (N with explicit 128-bit truncation, masks and shifts as in k_tuple.rs) of Terminals / '
+                   'TerminalString / KTuple: for every alphabet size up to the 12-bit limit and every k <= 10, new/eps/end/of/push/extend/'
+                   'k_concat/clear/get/iter/len/k_len/is_eps/is_k_complete commute with the denotation as a sequence, equality coincides with '
+                   'equality of denotations (same width), the ordering is the stated length-first co-lexicographic total order, the epsilon '
+                   'marker never collides with a terminal (both width boundaries), and concatenation never reaches the metadata bits '
+                   '(C32_*). Tie to the code: random operation sequences through the public API on boundary and inner alphabets; after every '
+                   'step the real raw 128-bit word is compared with the model (by denotation; raw equality is recorded) and every observation '
+                   'with the model.',
+        level_note='Trusted: Coq kernel, extraction, OCaml driver, Rust harness, the cfg-guarded raw accessor. KTuple-level canonicity (O1) is a '
+                   'recorded observation: tuples that denote the same sequence may differ in the k bookkeeping field '
+                   '(C32_ktuple_eq_by_sequence_refuted); all decisions go through a final k_concat (C32_concat_canonical). k > 10 is outside '
+                   'the property (C32_denote_k_concat_large_k_refuted documents the release-build corruption there).',
+        technique='Rocq proof (digit-vector library on N; one denotation lemma per operation) + model-vs-implementation replay via extraction',
+        streams=[dict(cmd='c32', quick=8000, thorough=400000)],
+        rule='operation sequences of 4-24 steps over 4 registers (push/extend/k_concat/of/clear/fresh values/observations/compare) for max terminal '
+             'index in {1,2,3,5,6,100, 2^b-2, 2^b-1 (b=1..12), 4094} and k in 0..10; non-trivial = a sequence of length >= 2 was built on a '
+             'boundary alphabet, or of length >= 5 elsewhere; distinct = distinct case text',
+        explanation='C32_denote_*: the model operation commutes with the abstract sequence operation; the run checks the implementation equals the model.',
+    ),
 }
